@@ -10,3 +10,4 @@ int vs_clock_gettime(clockid_t id, struct timespec *ts) { return clock_gettime(i
 int vs_mkstemp(char *tmpl) { return mkstemp(tmpl); }
 void *vs_mmap(void *a, size_t l, int p, int f, int fd, off_t o) { return mmap(a, l, p, f, fd, o); }
 int vs_munmap(void *a, size_t l) { return munmap(a, l); }
+int vs_close(int fd) { return close(fd); }
